@@ -516,6 +516,20 @@ def fam_discrete_delays_fixed():
                                "delayed self connection + undelayed input")))
     out.append(("F9x:undelayed-other-source", mk(lambda fp: [E('a0/li/x', 'a1/li/u', fp(), delay=dt * 2),
                                                              E('a1/li/x', 'a0/li/u', fp())], "undelayed edge from a node without delayed edges")))
+    def mk_src(edges_fn, note, n=3):
+        fp = FP()
+        ops = {'li': op_leaky(fp), 'src': op_source(fp)}
+        ops['li'].vars['u'] = ('input', F(0))
+        nodes = {'s0': NodeSpec(['src'], _node_overrides(fp, ops, ['src']))}
+        nodes.update({f"a{i}": NodeSpec(['li'], _node_overrides(fp, ops, ['li'])) for i in range(n)})
+        return ModelSpec('m', ops, nodes, edges_fn(fp), note=note)
+    out.append(("F9x:scalar-source-two-delays", mk_src(lambda fp: [E('s0/src/s', 'a0/li/u', fp(), delay=dt * 2),
+                                                                   E('s0/src/s', 'a1/li/u', fp(), delay=dt * 3)],
+                                                       "the only node of its type feeds two nodes of one type with different delays", n=2)))
+    out.append(("F9x:scalar-source-three-delays", mk_src(lambda fp: [E('s0/src/s', 'a0/li/u', fp(), delay=dt * 3),
+                                                                     E('s0/src/s', 'a1/li/u', fp(), delay=dt * 2),
+                                                                     E('s0/src/s', 'a2/li/u', fp(), delay=dt * 4)],
+                                                         "scalar source, three delays, not in ascending order")))
     out.append(("F9x:rounding", mk(lambda fp: [E('a0/li/x', 'a1/li/u', fp(), delay=dt * F(12, 5)),
                                                E('a1/li/x', 'a2/li/u', fp(), delay=dt * F(13, 5))], "d/dt = 2.4 and 2.6")))
     return out
@@ -581,6 +595,25 @@ def fam_gamma_fixed():
     out.append(("F11x:mixed", mk(lambda fp: [E('a0/li/x', 'a1/li/u', fp(), delay=F(1, 2), spread=F(1, 2)),
                                              E('a0/li/x', 'a2/li/u', fp()), E('a1/li/x', 'a0/li/u', fp())],
                                  "order-1 kernel + undelayed edges")))
+    A_, B_ = (F(1), F(1, 2)), (F(1, 2), F(1, 2))
+    out.append(("F11x:kernels-AAB", mk(lambda fp: [E('a0/li/x', 'a1/li/u', fp(), delay=A_[0], spread=A_[1]),
+                                                   E('a1/li/x', 'a2/li/u', fp(), delay=A_[0], spread=A_[1]),
+                                                   E('a0/li/x', 'a3/li/u', fp(), delay=B_[0], spread=B_[1])],
+                                       "one vectorized source variable, kernel groups [A, A, B]", n=4)))
+    out.append(("F11x:kernels-ABA", mk(lambda fp: [E('a0/li/x', 'a1/li/u', fp(), delay=A_[0], spread=A_[1]),
+                                                   E('a0/li/x', 'a3/li/u', fp(), delay=F(1), spread=F(2, 3)),
+                                                   E('a1/li/x', 'a2/li/u', fp(), delay=A_[0], spread=A_[1]),
+                                                   E('a2/li/x', 'a0/li/u', fp(), delay=F(1), spread=F(2, 3))],
+                                       "kernel groups [A, B, A, B] with different orders", n=4)))
+
+    def mk_perm(order, note):
+        m = mk(lambda fp: [E('a0/li/x', 'a1/li/u', fp(), delay=A_[0], spread=A_[1]),
+                           E('a1/li/x', 'a2/li/u', fp(), delay=A_[0], spread=A_[1]),
+                           E('a2/li/x', 'a0/li/u', fp(), delay=A_[0], spread=A_[1])], note)
+        names = list(m.nodes)
+        return ModelSpec('m', m.ops, {names[i]: m.nodes[names[i]] for i in order}, m.edges, note=note)
+    out.append(("F11x:ring-decl-120", mk_perm([1, 2, 0], "ring of one kernel, nodes declared a1, a2, a0")))
+    out.append(("F11x:ring-decl-210", mk_perm([2, 1, 0], "ring of one kernel, nodes declared a2, a1, a0")))
     out.append(("F11x:identical-kernels", mk(lambda fp: [E('a0/li/x', 'a1/li/u', fp(), delay=F(1), spread=F(1, 2)),
                                                          E('a0/li/x', 'a2/li/u', fp(), delay=F(1), spread=F(1, 2)),
                                                          E('a1/li/x', 'a0/li/u', fp(), delay=F(1), spread=F(1, 2))],
